@@ -35,6 +35,10 @@ func resetGlobalMutexes() {
 		m.owner = 0
 		m.vc = [MaxThreads]uint32{}
 	}
+	for _, m := range globalRWMutexes {
+		m.writer, m.readers, m.waitingWriters = false, 0, 0
+		m.vc, m.rvc = [MaxThreads]uint32{}, [MaxThreads]uint32{}
+	}
 }
 
 // fresh resets the model state of a mutex that was last used in an earlier
@@ -140,7 +144,18 @@ type RWMutex struct {
 	waitingWriters int // writers that have announced themselves: like sync.RWMutex, they block readers arriving later
 	vc      [MaxThreads]uint32 // released by writers
 	rvc     [MaxThreads]uint32 // released by readers
+	global  bool
+	name    string
 }
+
+// MarkGlobalRW is MarkGlobal for a package-level RWMutex.
+func MarkGlobalRW(m *RWMutex, name string) {
+	m.global = true
+	m.name = name
+	globalRWMutexes = append(globalRWMutexes, m)
+}
+
+var globalRWMutexes []*RWMutex
 
 func (m *RWMutex) fresh(s *sched) {
 	if m.epoch != s.epoch {
@@ -161,15 +176,22 @@ func (m *RWMutex) Lock() {
 	}
 	m.fresh(s)
 	t := s.cur
-	// phase 1: the writer announces itself (from now on new readers wait) ...
-	t.pend = pending{kind: opYield, obj: m}
-	s.point(t)
-	m.waitingWriters++
-	// ... phase 2: and waits for the readers and writers that hold the lock
-	t.pend = pending{kind: opLock, obj: m, enabled: func() bool { return !m.writer && m.readers == 0 }}
-	s.point(t)
-	m.waitingWriters--
+	if m.global && s.cfg.Elide && !m.writer && m.readers == 0 && m.waitingWriters == 0 {
+		// a free package-level lock: no preemption is offered (see Mutex.Lock); a write under it switches the elision off
+	} else {
+		// phase 1: the writer announces itself (from now on new readers wait) ...
+		t.pend = pending{kind: opYield, obj: m}
+		s.point(t)
+		m.waitingWriters++
+		// ... phase 2: and waits for the readers and writers that hold the lock
+		t.pend = pending{kind: opLock, obj: m, enabled: func() bool { return !m.writer && m.readers == 0 }}
+		s.point(t)
+		m.waitingWriters--
+	}
 	m.writer = true
+	if m.global {
+		t.heldGlob++
+	}
 	joinVC(&t.vc, &m.vc)
 	joinVC(&t.vc, &m.rvc)
 }
@@ -188,11 +210,14 @@ func (m *RWMutex) Unlock() {
 	if !m.writer {
 		panic("sync: Unlock of unlocked RWMutex")
 	}
-	if s.cfg.Sleep {
+	if s.cfg.Sleep && !(m.global && s.cfg.Elide) {
 		t.pend = pending{kind: opUnlock, obj: m}
 		s.point(t)
 	}
 	m.writer = false
+	if m.global {
+		t.heldGlob--
+	}
 	m.vc = t.vc
 	t.vc[t.id]++
 }
@@ -208,9 +233,14 @@ func (m *RWMutex) RLock() {
 	}
 	m.fresh(s)
 	t := s.cur
-	t.pend = pending{kind: opRLock, obj: m, enabled: func() bool { return !m.writer && m.waitingWriters == 0 }}
-	s.point(t)
+	if !(m.global && s.cfg.Elide && !m.writer && m.waitingWriters == 0) {
+		t.pend = pending{kind: opRLock, obj: m, enabled: func() bool { return !m.writer && m.waitingWriters == 0 }}
+		s.point(t)
+	}
 	m.readers++
+	if m.global {
+		t.heldGlob++
+	}
 	joinVC(&t.vc, &m.vc)
 }
 
@@ -228,11 +258,14 @@ func (m *RWMutex) RUnlock() {
 	if m.readers == 0 {
 		panic("sync: RUnlock of unlocked RWMutex")
 	}
-	if s.cfg.Sleep {
+	if s.cfg.Sleep && !(m.global && s.cfg.Elide) {
 		t.pend = pending{kind: opUnlock, obj: m}
 		s.point(t)
 	}
 	m.readers--
+	if m.global {
+		t.heldGlob--
+	}
 	joinVC(&m.rvc, &t.vc)
 	t.vc[t.id]++
 }
@@ -290,17 +323,24 @@ func (w *WaitGroup) Wait() {
 	s.trace("wg.Wait returns")
 }
 
-// Once replaces sync.Once.
+// Once replaces sync.Once. "Done" is one fact in both modes (a Once completed
+// by harness code outside the scheduler must not run again inside it); a Once
+// inside an object that outlives an execution stays done, like the real one.
 type Once struct {
 	real sync.Once
 	m    Mutex
-	done bool
+	done atomic.Bool
 }
 
 func (o *Once) Do(f func()) {
 	s := S
 	if s == nil || s.cur == nil {
-		o.real.Do(f)
+		o.real.Do(func() {
+			if !o.done.Load() {
+				defer o.done.Store(true)
+				f()
+			}
+		})
 		return
 	}
 	if s.aborting {
@@ -308,8 +348,8 @@ func (o *Once) Do(f func()) {
 	}
 	o.m.Lock()
 	defer o.m.Unlock()
-	if !o.done {
-		defer func() { o.done = true }()
+	if !o.done.Load() {
+		defer o.done.Store(true)
 		f()
 	}
 }
